@@ -197,6 +197,21 @@ end field
 section ordered
 variable {α : Type} [Field α] [LinearOrder α] [IsStrictOrderedRing α]
 
+/-- (a) ordering inside a pixel: with positive pixel scales, going from `y₁` to `y₁+1` moves the point
+    down (smaller y) and from `x₁` to `x₁+1` moves it right (larger x) — "top-to-bottom, then
+    left-to-right". -/
+theorem a_order_top_to_bottom_left_to_right (g : Geom α) (P : α × α) (s : Nat) (hs : s ≠ 0)
+    (hsy : 0 < g.sy) (hsx : 0 < g.sx) (q : Nat × Nat) :
+    (Spec.subCentre g P s (q.1 + 1, q.2)).1 < (Spec.subCentre g P s q).1
+    ∧ (Spec.subCentre g P s q).2 < (Spec.subCentre g P s (q.1, q.2 + 1)).2 := by
+  have hs' : (0 : α) < (s : α) := Nat.cast_pos.mpr (Nat.pos_of_ne_zero hs)
+  have dy : 0 < g.sy / (s : α) := div_pos hsy hs'
+  have dx : 0 < g.sx / (s : α) := div_pos hsx hs'
+  unfold Spec.subCentre
+  simp only [mul_div_assoc]
+  push_cast
+  constructor <;> nlinarith
+
 omit [IsStrictOrderedRing α] in
 /-- (d) the decorator on a `Grid2D` built from the mask (`Grid2D.from_mask`, whose values are the
     pixel centres) with uniform over-sampling — an int or a per-pixel array with entries ≥ 1 — returns,
